@@ -5,18 +5,279 @@
 import BioCantor.Proofs.LiftDefs
 import BioCantor.Proofs.RelInterval
 import BioCantor.Proofs.LiftChunk
+import BioCantor.Proofs.LiftSteps
 namespace BioCantor.Proofs
 open BioCantor BioCantor.Spec BioCantor.Model
+
+namespace Lift
+
+theorem ans_map {α β} (f : α → β) (x : Except Err α) : ans (f <$> x) = (ans x).map f := by
+  cases x <;> rfl
+
+theorem ans_none_iff {α} (x : Except Err α) : ans x = none ↔ ∃ e, x = .error e := by
+  cases x <;> simp [ans]
+
+theorem hasAncestorOfType_eq (t : List Char) (ch : Chain) :
+    hasAncestorOfType t ch = (findType t (ch.map toSLevel)).isSome := by
+  induction ch with
+  | nil => rfl
+  | cons l ch ih =>
+    unfold hasAncestorOfType at ih ⊢
+    simp only [List.any_cons, List.map_cons, findType, toSLevel]
+    by_cases h : (l.type == t) = true
+    · simp [h]
+    · simp only [h, Bool.false_or]
+      simpa [toSLevel] using ih
+
+theorem chainWF_tail (l : Level) (ch : Chain) (h : ChainWF (l :: ch)) : ChainWF ch :=
+  fun x hx p hp => h x (by simp [hx]) p hp
+
+theorem liftToType_prop (t : List Char) : ∀ (ch : Chain) (c : Location), WF c → c ≠ .empty → ChainWF ch →
+    match findType t (ch.map toSLevel) with
+    | none => ans (Prod.fst <$> liftToType t c ch) = none
+    | some k => LiftedProp c ((((ch.map toSLevel).drop 1).take k).map (·.place))
+        (ans (Prod.fst <$> liftToType t c ch)) := by
+  intro ch
+  induction ch with
+  | nil => intro c _ _ _; simp [findType, liftToType, ans_map]
+  | cons l0 rest ih =>
+    intro c hc hce hch
+    have hb : (c == Location.empty) = false := by simpa using hce
+    rw [liftToType.eq_def]
+    simp only [hb, Bool.false_eq_true, if_false, hasAncestorOfType_eq]
+    have hft : findType t (List.map toSLevel (l0 :: rest)) =
+        if (l0.type == t) = true then some 0 else (findType t (rest.map toSLevel)).map (· + 1) := rfl
+    rw [hft]
+    by_cases h0 : (l0.type == t) = true
+    · simp only [h0, if_true, Option.isSome_some, not_true, if_false, List.take_zero, List.map_nil]
+      exact lifted_base c hc hce
+    simp only [h0, if_false, Bool.false_eq_true]
+    have hch' := chainWF_tail l0 rest hch
+    cases rest with
+    | nil => simp [findType, ans_map, throw, throwThe, MonadExceptOf.throw]
+    | cons l1 up =>
+      cases hf : findType t ((l1 :: up).map toSLevel) with
+      | none => simp [ans_map, throw, throwThe, MonadExceptOf.throw]
+      | some k' =>
+        simp only [Option.map_some, Option.isSome_some, not_true, if_false]
+        have hplaces : List.map (fun x => x.place)
+              (List.take (k' + 1) (List.drop 1 (List.map toSLevel (l0 :: l1 :: up)))) =
+            l1.place :: List.map (fun x => x.place)
+              (List.take k' (List.drop 1 (List.map toSLevel (l1 :: up)))) := by
+          simp [toSLevel]
+        rw [hplaces]
+        cases hp : l1.place with
+        | none =>
+          simp only [ans_map, throw, throwThe, MonadExceptOf.throw, ans_error, Option.map_none]
+          exact lifted_none c _
+        | some p =>
+          simp only []
+          have hpw : WF p := hch l1 (by simp) p hp
+          rcases lift_step c p hc hpw hce with ⟨hfail, hwhy⟩ | ⟨m, ys, hm, hth, hcne, hmw, hmne, hmst, hmp, hmex, _⟩
+          · obtain ⟨e, he⟩ := (ans_none_iff _).mp hfail
+            rw [he]
+            simp only [bind, Except.bind, ans_map, ans_error, Option.map_none]
+            exact lifted_fail c p _ hwhy
+          · rw [hm]
+            simp only [bind, Except.bind]
+            have ih' := ih m hmw hmne hch'
+            rw [hf] at ih'
+            exact lifted_step c p m ys _ _ hth hcne hmst hmp hmex ih'
+
+end Lift
+open Lift
 
 theorem liftToType_ok (t : List Char) (c : Location) (ch : Chain) (hc : WF c) (hch : ChainWF ch)
     (hcons : Consistent (ch.map toSLevel)) :
     okLiftType t c (ch.map toSLevel) (ans (Prod.fst <$> liftToType t c ch)) = true := by
-  sorry
+  unfold okLiftType
+  by_cases hce : c = .empty
+  · subst hce
+    have hnone : ans (Prod.fst <$> liftToType t .empty ch) = none := by
+      rw [liftToType.eq_def]
+      cases ch <;> simp [ans_map, throw, throwThe, MonadExceptOf.throw]
+    rw [hnone]
+    cases findType t (ch.map toSLevel) with
+    | none => rfl
+    | some k => exact okLifted_empty _ k
+  · have h := liftToType_prop t ch c hc hce hch
+    cases hf : findType t (ch.map toSLevel) with
+    | none => rw [hf] at h; simp [h]
+    | some k => rw [hf] at h; exact okLifted_of c _ k _ hcons hce h
+
+/-! ### lift_over_to_sequence -/
+
+namespace Lift
+
+theorem isContiguous_ok (c : Location) (hce : c ≠ .empty) :
+    ∃ b, isContiguous c = .ok b ∧ (b = false → ¬ (locationBlocks c).length ≤ 1) := by
+  cases c with
+  | empty => exact absurd rfl hce
+  | single b s => exact ⟨true, rfl, by simp⟩
+  | compound l =>
+    refine ⟨isContiguous.go l.blocks, rfl, ?_⟩
+    intro h hlen
+    simp only [locationBlocks] at hlen
+    match hl : l.blocks, hlen with
+    | [], _ => rw [hl] at h; simp [isContiguous.go] at h
+    | [_], _ => rw [hl] at h; simp [isContiguous.go] at h
+
+theorem liftToSeq_false (k : SeqKey) (c : Location) (ch : Chain) (h : isContiguous c = .ok false) :
+    ans (Prod.fst <$> liftToSeq k c ch) = none := by
+  rw [liftToSeq.eq_def]
+  simp [h, bind, Except.bind, throw, throwThe, MonadExceptOf.throw, ans_map]
+
+theorem liftToSeq_true (k : SeqKey) (c : Location) (ch : Chain) (h : isContiguous c = .ok true) :
+    liftToSeq k c ch =
+      (match ch with
+        | [] => throw Err.NoSuchAncestor
+        | l0 :: rest =>
+          if ¬hasAncestorSeq k (l0 :: rest) = true then throw Err.NoSuchAncestor
+          else
+            if (levelSeqKey l0 == some k) = true then pure (c, l0 :: rest)
+            else
+              match rest with
+              | [] => throw Err.NullParent
+              | l1 :: up =>
+                match l1.place with
+                | none => throw Err.NullParent
+                | some p => do
+                  let lifted ← liftOnce c p
+                  liftToSeq k lifted (l1 :: up)) := by
+  rw [liftToSeq.eq_def]
+  simp only [h, bind, Except.bind]
+  rfl
+
+theorem hasAncestorSeq_eq (k : SeqKey) (ch : Chain) :
+    hasAncestorSeq k ch = (findSeq k (ch.map toSLevel)).isSome := by
+  induction ch with
+  | nil => rfl
+  | cons l ch ih =>
+    unfold hasAncestorSeq at ih ⊢
+    simp only [List.any_cons, List.map_cons, findSeq, toSLevel, levelSeqKey]
+    by_cases h : (Option.map (fun s => (l.id, l.type, s)) l.seq == some k) = true
+    · simp [h]
+    · simp only [h, Bool.false_or]
+      simpa [toSLevel, levelSeqKey] using ih
+
+def oneBlockAll (places : List (Option Location)) : Bool :=
+  places.all (fun q => match q with | some p => decide ((locationBlocks p).length ≤ 1) | none => true)
+
+def SeqLiftProp (c : Location) (places : List (Option Location)) (a : Option Location) : Prop :=
+  (a = none ∧ ¬ ((locationBlocks c).length ≤ 1 ∧ oneBlockAll places = true)) ∨ LiftedProp c places a
+
+theorem liftToSeq_prop (key : SeqKey) : ∀ (ch : Chain) (c : Location), WF c → c ≠ .empty → ChainWF ch →
+    match findSeq key (ch.map toSLevel) with
+    | none => ans (Prod.fst <$> liftToSeq key c ch) = none
+    | some k => SeqLiftProp c ((((ch.map toSLevel).drop 1).take k).map (·.place))
+        (ans (Prod.fst <$> liftToSeq key c ch)) := by
+  intro ch
+  induction ch with
+  | nil =>
+    intro c _ hce _
+    obtain ⟨b, hb, _⟩ := isContiguous_ok c hce
+    cases b with
+    | false => simpa [findSeq] using liftToSeq_false key c [] hb
+    | true => rw [liftToSeq_true key c [] hb]; simp [findSeq, ans_map, throw, throwThe, MonadExceptOf.throw]
+  | cons l0 rest ih =>
+    intro c hc hce hch
+    obtain ⟨b, hb, hbl⟩ := isContiguous_ok c hce
+    cases b with
+    | false =>
+      rw [liftToSeq_false key c _ hb]
+      split
+      · rfl
+      · left; exact ⟨rfl, fun h => hbl rfl h.1⟩
+    | true =>
+    rw [liftToSeq_true key c _ hb]
+    simp only [hasAncestorSeq_eq]
+    have hft : findSeq key (List.map toSLevel (l0 :: rest)) =
+        if (levelSeqKey l0 == some key) = true then some 0
+        else (findSeq key (rest.map toSLevel)).map (· + 1) := rfl
+    rw [hft]
+    by_cases h0 : (levelSeqKey l0 == some key) = true
+    · simp only [h0, if_true, Option.isSome_some, not_true, if_false, List.take_zero, List.map_nil]
+      right
+      exact lifted_base c hc hce
+    simp only [h0, if_false, Bool.false_eq_true]
+    have hch' := chainWF_tail l0 rest hch
+    cases rest with
+    | nil => simp [findSeq, ans_map, throw, throwThe, MonadExceptOf.throw]
+    | cons l1 up =>
+      cases hf : findSeq key ((l1 :: up).map toSLevel) with
+      | none => simp [ans_map, throw, throwThe, MonadExceptOf.throw]
+      | some k' =>
+        simp only [Option.map_some, Option.isSome_some, not_true, if_false]
+        have hplaces : List.map (fun x => x.place)
+              (List.take (k' + 1) (List.drop 1 (List.map toSLevel (l0 :: l1 :: up)))) =
+            l1.place :: List.map (fun x => x.place)
+              (List.take k' (List.drop 1 (List.map toSLevel (l1 :: up)))) := by
+          simp [toSLevel]
+        rw [hplaces]
+        cases hp : l1.place with
+        | none =>
+          simp only [ans_map, throw, throwThe, MonadExceptOf.throw, ans_error, Option.map_none]
+          right
+          exact lifted_none c _
+        | some p =>
+          simp only []
+          have hpw : WF p := hch l1 (by simp) p hp
+          rcases lift_step c p hc hpw hce with ⟨hfail, hwhy⟩ | ⟨m, ys, hm, hth, hcne, hmw, hmne, hmst, hmp, hmex, hone⟩
+          · obtain ⟨e, he⟩ := (ans_none_iff _).mp hfail
+            rw [he]
+            simp only [bind, Except.bind, ans_map, ans_error, Option.map_none]
+            right
+            exact lifted_fail c p _ hwhy
+          · rw [hm]
+            simp only [bind, Except.bind]
+            have ih' := ih m hmw hmne hch'
+            rw [hf] at ih'
+            rcases ih' with ⟨ha, hnot⟩ | ih'
+            · left
+              refine ⟨ha, ?_⟩
+              intro hall
+              apply hnot
+              simp only [oneBlockAll, List.all_cons, Bool.and_eq_true, decide_eq_true_eq] at hall
+              exact ⟨hone hall.1 hall.2.1, hall.2.2⟩
+            · right
+              exact lifted_step c p m ys _ _ hth hcne hmst hmp hmex ih'
+
+end Lift
 
 theorem liftToSeq_ok (k : SeqKey) (c : Location) (ch : Chain) (hc : WF c) (hch : ChainWF ch)
     (hcons : Consistent (ch.map toSLevel)) :
     okLiftSeq k c (ch.map toSLevel) (ans (Prod.fst <$> liftToSeq k c ch)) = true := by
-  sorry
+  unfold okLiftSeq
+  by_cases hce : c = .empty
+  · subst hce
+    have hnone : ans (Prod.fst <$> liftToSeq k .empty ch) = none := by
+      rw [liftToSeq.eq_def]
+      simp [isContiguous, bind, Except.bind, ans_map, throw, throwThe, MonadExceptOf.throw]
+    rw [hnone]
+    cases findSeq k (ch.map toSLevel) with
+    | none => rfl
+    | some n =>
+      simp only []
+      split
+      · rfl
+      · exact okLifted_empty _ n
+  · have h := liftToSeq_prop k ch c hc hce hch
+    cases hf : findSeq k (ch.map toSLevel) with
+    | none => rw [hf] at h; simp [h]
+    | some n =>
+      rw [hf] at h
+      simp only []
+      rcases h with ⟨ha, hnot⟩ | h
+      · rw [if_pos]
+        refine ⟨by simp [ha], ?_⟩
+        intro hall
+        apply hnot
+        refine ⟨hall.1, ?_⟩
+        simp only [oneBlockAll, List.all_map]
+        exact hall.2
+      · split
+        · rfl
+        · exact okLifted_of c _ n _ hcons hce h
 
 theorem chunkDown_ok (l : Location) (hl : WF l) (w : Blk) (wst : Strand) :
     okChunkDown l w wst (ans (chunkDown l w wst)) = true :=
